@@ -55,6 +55,9 @@ OidCalls ==
                   FirstPairValid(a, b)}
       tails == {<<>>} \cup {<<x>> : x \in ArcEdges} \cup {<<x, y>> : x \in {N(0), N(127), N(128), IDec(IPow2(32)).mag}, y \in {N(1), N(16384), IDec(IPow2(32)).mag}}
                \cup {<<N(1), N(2), N(3), N(4), N(5), N(6), N(7), N(8), N(9), N(10), N(11)>>}
+               \* long vectors of maximal arcs: the contents need 5 octets per arc (every size estimate is exercised)
+               \cup {[i \in 1..n |-> IDec(IPow2(32)).mag] : n \in {12, 22, 38, 62}}
+               \cup {[i \in 1..n |-> IPow2(28).mag] : n \in {13, 30}}
       vecs == {<<p[1], p[2]>> \o t : p \in pairs, t \in tails}
   IN {[op |-> "setarcs", arcs |-> v] : v \in vecs}
      \cup {[op |-> "parse", arcs |-> v] : v \in vecs}
